@@ -75,7 +75,7 @@ func RunW2Scripted(prof *Profile, plan, sched *simrt.Source, trace bool) *RunOut
 	em := 1 + g.Intn(4)
 	sc := &Scenario{Universe: rules}
 	sc.Index()
-	nOps := 1 + g.Intn(10)
+	nOps := 1 + g.Intn(deep(10, 8))
 	ver := 1
 	model := PoolModel{Set: modelOf(rules), EM: em}
 	var ops []*MgmtOp
